@@ -1,6 +1,7 @@
 import Pandora.Drv.Util
 import Pandora.Model.C08
 import Pandora.Model.C08Chan
+import Pandora.Model.C08Mach
 import Pandora.Spec.C08
 
 namespace Pandora.Drv.C08
@@ -77,8 +78,17 @@ def showDrain (l : Line) (o : Spec.C08.Obs) (ops implEnd implRun : String) (fire
   let f := match fired with | some f => s!" fired={f}" | none => ""
   s!"delivered={o.delivered} cut={b01 o.cut}{f} run={run} end={e} seq={seqField l.cons (!o.cut)} ops={ops}"
 
+/-- the two models of a drain cell agree: `Model.C08.run` (loops as fuel functions) and the small-step machine of
+`Model.C08Mach` under the drain schedule -/
+def modelsAgree (l : Line) : Bool :=
+  match run l.inp l.n, runMach l.inp l.n with
+  | some a, some b => a.delivered == b.delivered && a.run == b.run && a.sinkClosed == b.sinkClosed
+  | none, none => true
+  | _, _ => false
+
 def modelDrain (l : Line) (ikv : List (String × String)) (fired : Option String := none) : String :=
-  showDrain l (obsOf l.cell.cap 0 (run l.inp l.n)) (getS ikv "ops" "0") (getS ikv "end" "spinning") (getS ikv "run") fired
+  let s := showDrain l (obsOf l.cell.cap 0 (run l.inp l.n)) (getS ikv "ops" "0") (getS ikv "end" "spinning") (getS ikv "run") fired
+  if modelsAgree l then s else s ++ " MODELS-DISAGREE(Model.C08.run vs Model.C08Mach.runMach)"
 
 def parseObs (kv : List (String × String)) : Option Spec.C08.Obs := do
   pure { delivered := ← getN? kv "delivered", cut := getS kv "cut" == "1", run := parseRun (getS kv "run"),
